@@ -83,8 +83,12 @@ def _len_buf_bound(c: str) -> Optional[tuple]:
     return None
 
 
-def _parse_full_length(term: str):
-    """X = struct.unpack(fmt, buf[a:b])[0] + k  ->  (fmt, a, b, k) or None"""
+def _parse_full_length(term: str, repo=None):
+    """X = <big-endian unsigned read of buf[a:b]> + k  ->  (fmt, a, b, k) or None.  Understood readers:
+    struct.unpack(fmt, buf[a:b])[0], S.unpack(buf[a:b])[0], struct.unpack_from(fmt, buf, a)[0], S.unpack_from(buf, a)[0]
+    (S a struct.Struct constant), int.from_bytes(buf[a:b], 'big')."""
+    import struct as _st
+    from ..srcmodel import StructVal
     try:
         e = ast.parse(term, mode='eval').body
     except SyntaxError:
@@ -97,23 +101,54 @@ def _parse_full_length(term: str):
     if not (isinstance(b, ast.Constant) and isinstance(b.value, int)):
         return None
     k = b.value
+
+    def buf_slice(sl):
+        if not (isinstance(sl, ast.Subscript) and ast.unparse(sl.value) == BUF and isinstance(sl.slice, ast.Slice)):
+            return None
+        lo = sl.slice.lower.value if isinstance(sl.slice.lower, ast.Constant) else (0 if sl.slice.lower is None else None)
+        hi = sl.slice.upper.value if isinstance(sl.slice.upper, ast.Constant) else None
+        return lo, hi
+    # int.from_bytes(buf[a:b], 'big')
+    if isinstance(a, ast.Call) and ast.unparse(a.func) == 'int.from_bytes' and a.args:
+        bs = buf_slice(a.args[0])
+        order = a.args[1].value if len(a.args) > 1 and isinstance(a.args[1], ast.Constant) else \
+            next((kw.value.value for kw in a.keywords if kw.arg == 'byteorder' and isinstance(kw.value, ast.Constant)), None)
+        if bs is None or bs[0] is None or bs[1] is None:
+            return None
+        fmt = {('big', 4): '>L', ('little', 4): '<L', ('big', 2): '>H', ('little', 2): '<H'}.get((order, bs[1] - bs[0]), '?%s%d' % (order, bs[1] - bs[0]))
+        return fmt, bs[0], bs[1], k
     if not (isinstance(a, ast.Subscript) and isinstance(a.slice, ast.Constant) and a.slice.value == 0):
         return None
     call = a.value
-    if not (isinstance(call, ast.Call) and len(call.args) == 2):
+    if not (isinstance(call, ast.Call) and isinstance(call.func, ast.Attribute)):
         return None
-    callee = ast.unparse(call.func)
+    meth = call.func.attr
+    recv = call.func.value
+    args = list(call.args)
     fmt = None
-    if callee == 'struct.unpack' and isinstance(call.args[0], ast.Constant):
-        fmt = call.args[0].value
-        sl = call.args[1]
-    else:
+    if ast.unparse(recv) == 'struct' and args and isinstance(args[0], ast.Constant) and isinstance(args[0].value, str):
+        fmt = args[0].value
+        args = args[1:]
+    elif repo is not None:
+        v = repo.try_fold(recv, repo.module('dulprovider'), repo.cls('dulprovider', 'DULServiceProvider'))
+        if isinstance(v, StructVal):
+            fmt = v.fmt
+    if fmt is None:
         return None
-    if not (isinstance(sl, ast.Subscript) and ast.unparse(sl.value) == BUF and isinstance(sl.slice, ast.Slice)):
-        return None
-    lo = sl.slice.lower.value if isinstance(sl.slice.lower, ast.Constant) else (0 if sl.slice.lower is None else None)
-    hi = sl.slice.upper.value if isinstance(sl.slice.upper, ast.Constant) else None
-    return fmt, lo, hi, k
+    if meth == 'unpack' and len(args) == 1:
+        bs = buf_slice(args[0])
+        if bs is None:
+            return None
+        return fmt, bs[0], bs[1], k
+    if meth == 'unpack_from' and args and ast.unparse(args[0]) == BUF:
+        off = args[1].value if len(args) > 1 and isinstance(args[1], ast.Constant) else 0 if len(args) == 1 else None
+        if off is None:
+            return None
+        try:
+            return fmt, off, off + _st.calcsize(fmt), k
+        except _st.error:
+            return None
+    return None
 
 
 def drain_order_problems(finals):
@@ -260,7 +295,7 @@ def run(repo, rep):
             problems.append('decode() does not receive a prefix slice of the buffer: %s' % arg)
             continue
         X = ast.unparse(ae.slice.upper)
-        parsed = _parse_full_length(X)
+        parsed = _parse_full_length(X, repo)
         if parsed is None:
             problems.append('PDU length expression not recognised: %s' % X)
             continue
